@@ -81,7 +81,7 @@ TAGS = [":oversize-ro-spot-in-run", ":oversize-ro-spot", ":after-flip-by-market-
 def sig_of(clause):
     """stable signature of a monitor clause: clauses that the monitor attributed to a cause (flip by the market
     replacement, oversize reduce-only close) are grouped per family and cause, all others are their own class"""
-    if clause.startswith("machinery:"):
+    if clause.startswith("machinery:") or clause in ("session-aborted-by:EncodeError", "session-aborted-by:S_Overflow"):
         raise Machinery("trace out of the recorder's protocol: " + clause)
     if clause == "exit-not-reduce-only:market-replacement-on-open":
         return clause
